@@ -29,6 +29,11 @@ from . import grading_judge
 def consts(tier: str, part: str):
     # cover and chain: the same assembled mesh is graded (written) a second time (Regrade)
     base = {"Variant": '"fixed"', "Rot1Choice": "{1}", "PassBound": "4", "Rounds": "1" if part == "free" else "2"}
+    if part == "multi":
+        # two-section chops (different counts per section) between two blocks in many relative numberings, flipped ones included
+        base.update({"Topos": g.tla_set(["face2", "edge2"]), "RotChoice": "{1, 4, 7, 11, 30, 43}",
+                     "ChopOpts": g.tla_set(["A2", "D1E2"]), "MaxChopped": "0", "Cover": "TRUE", "AllOrders": "TRUE"})
+        return base
     if tier == "quick":
         if part == "free":
             base.update({"Topos": g.tla_set(["face2", "edge2", "hook3"]), "RotChoice": "{1, 30}",
@@ -42,15 +47,20 @@ def consts(tier: str, part: str):
                          "ChopOpts": g.tla_set(["A2"]), "MaxChopped": "1", "Cover": "TRUE", "AllOrders": "FALSE"})
     else:
         if part == "chain":
-            base.update({"Topos": g.tla_set(["row4", "zig4"]), "RotChoice": "{1, 4, 30}",
+            base.update({"Topos": g.tla_set(["row4", "zig4"]), "RotChoice": "{1, 30}",
                          "ChopOpts": g.tla_set(["A2"]), "MaxChopped": "0", "Cover": "TRUE", "AllOrders": "TRUE"})
         elif part == "free":
             base.update({"Topos": g.tla_set(["face2", "edge2", "corner2", "row3", "ell3", "hook3", "stair3"]),
                          "RotChoice": "{1, 4, 30}", "Rot1Choice": "{1, 11}",
                          "ChopOpts": g.tla_set(["A2", "B3", "C2"]), "MaxChopped": "2", "Cover": "FALSE", "AllOrders": "TRUE"})
-        else:
-            base.update({"Topos": g.tla_set(["row3", "ell3", "tee4", "tee4b", "sq4", "zig4"]), "RotChoice": "{1, 30, 43}",
+        elif part == "cover":
+            # three blocks: two-section chops and three numberings
+            base.update({"Topos": g.tla_set(["row3", "ell3", "hook3", "stair3"]), "RotChoice": "{1, 30, 43}",
                          "ChopOpts": g.tla_set(["A2", "D1E2"]), "MaxChopped": "1", "Cover": "TRUE", "AllOrders": "FALSE"})
+        else:
+            # cover4 - four blocks: one chop law, two numberings
+            base.update({"Topos": g.tla_set(["tee4", "tee4b", "sq4", "zig4"]), "RotChoice": "{1, 30}",
+                         "ChopOpts": g.tla_set(["A2"]), "MaxChopped": "1", "Cover": "TRUE", "AllOrders": "FALSE"})
     return base
 
 
@@ -76,7 +86,7 @@ def run(ctx: Ctx) -> None:
     rng = random.Random(ctx.seed + 2)
     n_sched = 2 if ctx.tier == "quick" else 8
     limit = 260 if ctx.tier == "quick" else 12000
-    for part in ("free", "cover", "chain"):
+    for part in ("free", "cover", "chain", "multi") + (("cover4",) if ctx.tier == "thorough" else ()):
         c = consts(ctx.tier, part)
         cfgs = g.model_check(ctx, c, INVS, props=["Terminates"] if ctx.tier == "thorough" else [],
                              timeout=3000, emit=True).records
